@@ -27,6 +27,8 @@ def _par(c, name, n, form, **kw):
     name = name + _SUF[0]
     if form == 'scalar':
         v = c.real(name, **kw); return v, np.array([v] * n, dtype=object if c.sym else float)
+    if form == 'len1':                      # an array with ONE entry, broadcast over the geometry like a scalar
+        v = c.real(name, **kw); return np.array([v], dtype=object if c.sym else float), np.array([v] * n, dtype=object if c.sym else float)
     vec = c.vec(name, n, **kw)
     if form == 'list': return list(vec), vec
     return vec, vec
@@ -322,10 +324,11 @@ def jobs(tier):
                 InverseGamma='_inverse_gamma', Beta='_beta', Uniform='_uniform', Lognormal='_lognormal')
     for fam in FAMILIES:
         fl = F(mods[fam], f'{fam}.logpdf') + [f'{D}._distribution:Distribution.logd', 'cuqi.density._density:Density.logd']
-        for form in ('scalar', 'vector', 'list'):
+        for form in ('scalar', 'vector', 'list', 'len1'):
             for n in ([1, 3] if q else [1, 2, 3]):
                 if fam == 'Lognormal' and n == 3: n = 2
                 if form == 'list' and (n == 1 or q): continue
+                if form == 'len1' and (n == 1 or fam == 'Lognormal'): continue
                 if fam == 'Lognormal' and (form == 'scalar' and n > 1 or n > 2): continue     # scalar parameters define a 1-d Lognormal
                 lvl = 'B' if (fam == 'Lognormal' and n > 1) else 'Pbox'     # log-of-product algebra at n>1 exceeds the solvers' budget: bounded stand-in
                 if any(j.id == f'{fam}.logpdf:{form}:n={n}' for j in J): continue
